@@ -230,7 +230,7 @@ pub fn check_one(pi: usize, p: &Pos, d: Dialect, name: &str, engine_runs: &Count
 }
 
 pub fn run(rep: &Arc<Report>) {
-    let n = if rep.thorough() { 4 } else { 3 };
+    let n = if rep.thorough() { 5 } else { 3 };
     let poss = positions();
     let evals = Counter::new();
     let engine_runs = Counter::new();
